@@ -83,20 +83,26 @@ theorem trimStep_get (sub : Bytes) (cutoff : Int) (fs : FS) (name p : Bytes) :
     simp [hskip]
   · have he : entryName name := by simpa [entryName] using hskip
     simp only [hskip, Bool.false_eq_true, if_false]
-    have hst : (match fs.get (sub ++ [slash] ++ name) with
-        | some f => Gen.Cache.trimRemove true f.mtime cutoff
-        | none => Gen.Cache.trimRemove false 0 cutoff) = stale cutoff (fs.get (sub ++ [slash] ++ name)) := by
-      cases fs.get (sub ++ [slash] ++ name) <;> rfl
-    simp only [hst]
-    by_cases hp : p = sub ++ [slash] ++ name
-    · subst hp
-      by_cases hs : stale cutoff (fs.get (sub ++ [slash] ++ name)) = true
-      · rw [keepUnless_pos ⟨⟨rfl, he⟩, hs⟩]; simp [hs, FS.get_erase]
-      · rw [keepUnless_neg (fun h => hs h.2)]; simp [hs]
-    · rw [keepUnless_neg (fun h => hp h.1.1)]
-      by_cases hs : stale cutoff (fs.get (sub ++ [slash] ++ name)) = true
-      · simp [hs, hp, FS.get_erase]
-      · simp [hs]
+    cases hget : fs.get (sub ++ [slash] ++ name) with
+    | none =>
+      have hf : Gen.Cache.trimRemove false 0 cutoff = false := by simp [Gen.Cache.trimRemove]
+      simp only [hf, Bool.false_eq_true, if_false]
+      rw [keepUnless_neg]
+      rintro ⟨⟨hp, _⟩, hs⟩
+      rw [hp, hget, stale_none] at hs
+      cases hs
+    | some f =>
+      simp only []
+      by_cases hr : Gen.Cache.trimRemove true f.mtime cutoff = true
+      · simp only [hr, if_true, FS.get_erase]
+        by_cases hp : p = sub ++ [slash] ++ name
+        · rw [keepUnless_pos ⟨⟨hp, he⟩, by rw [hp, hget]; exact hr⟩]; simp [hp]
+        · rw [keepUnless_neg (fun h => hp h.1.1)]; simp [hp]
+      · simp only [hr, Bool.false_eq_true, if_false]
+        rw [keepUnless_neg]
+        rintro ⟨⟨hp, _⟩, hs⟩
+        rw [hp, hget] at hs
+        exact hr hs
 
 theorem mem_listDir (fs : FS) (sub name : Bytes) :
     name ∈ listDir fs sub ↔ (sub ++ [slash] ++ name) ∈ fs.names ∧ name ≠ [] ∧ slash ∉ name := by
